@@ -21,7 +21,7 @@ import numpy as np
 import scipy.sparse as sp
 from scipy.sparse.linalg import LinearOperator
 
-from common import enc_rats, enc_crats, dec_list, dec_rat, dec_crat
+from common import enc_rats, enc_crats, dec_list, dec_rat, dec_crat, float_bits
 
 META = {
     'rule': 'case = (solver, matrix, preconditioner, b, x0, number of steps K <= n, storage of A and M, restart); '
@@ -33,14 +33,20 @@ META = {
             'M in {none, diagonal, alpha I + beta A, dense HPD with condition <= 10}; x0 in {none, 0, random, large, '
             'exact}; non-trivial = K >= 2 and r0 != 0; distinct = distinct (solver, options, input) tuples',
     'search_only': [
-        'GMRES (MGS and Householder) and FGMRES: the iterates are compared with the exact minimiser (search); the '
-        'theorems gmres_optimal_of_givens / arnoldiStep_inv are about the abstract Arnoldi + Givens data, the '
-        'Householder reflections and LAPACK lartg / the triangular solve are not modelled',
-        'complex systems: recurrence models run on Gaussian rationals and are compared with the code, the optimality '
-        'theorems are stated over ordered fields (real case)',
+        'GMRES with Householder reflections and FGMRES (native kernels apply_householders / householder_hornerscheme / '
+        'apply_givens of krylov.h): iterates compared with the exact, certificate-checked minimiser (search); the theorems '
+        'gmres_optimal_of_givens / gmres_optimal_of_qr are about abstract Arnoldi + Givens data, the Householder reflections, '
+        'LAPACK lartg and the triangular solve are not modelled',
+        'GMRES(MGS): the executable model is run in binary64 and compared with the code; gmres_mgs_optimal_krylov is proved '
+        'for exact square roots (real case), fewer than n inner iterations, no breakdown; restarts, k = n and the reorth '
+        'option are search only',
+        'complex systems: the recurrence models run on Gaussian rationals and are compared with the code; the optimality '
+        'theorems are stated over ordered fields (real case); the complex minimisers are checked by the unverified list '
+        'version of the certificate test',
         'flexible GMRES with a varying preconditioner: dense NumPy least-squares oracle over the recorded directions',
         'preconditioned CR with a preconditioner commuting with A (alpha I + beta A): search only (cr_optimal is M = I)',
-        'bicgstab: the property promises no minimiser; only "solved within n steps up to 1e-6" is searched',
+        'bicgstab: the property promises no minimiser; "solved within n steps" is only counted (feature bicgstab-solved), '
+        'never judged',
         'monotonicity and n-step termination in binary64 (theorems: exact arithmetic)',
     ],
     'partial': [],
@@ -49,7 +55,10 @@ META = {
         'value of the promised norm, plus 1e-12 of the solution norm) on systems with condition number <= 100, '
         'preconditioner condition <= 10',
         'no breakdown: the theorems assume the denominators rz / zr / rAz are non-zero before step k (checked per '
-        'instance by the exact model, which stops at the first zero denominator)',
+        'instance by the exact model, which stops at the first zero denominator; the real code is never asked for more '
+        'steps than the grade of r0, i.e. than the Krylov space has dimensions)',
+        'condition number of the (preconditioned) operator <= min(100, 10^(12/n)): conjugate-gradient type recurrences '
+        'lose about eps*kappa^(n/2) of the optimality after n steps in binary64 (measured: 9e-9 at kappa = 100, n = 8)',
         'A (and M) Hermitian positive definite where the method requires it: part of the generators',
     ],
 }
@@ -144,7 +153,8 @@ def gen_hpd(rng, n, cplx, kmax=100.0):
             A = (A + A.conj().T) / 2
         elif fam == 'cluster':
             Q = _unitary(rng, n, cplx)
-            vals = rng.choice([v for v in (1.0, 2.0, 3.0, 8.0, 20.0) if v <= 0.9 * kmax], size=int(rng.integers(1, 4)), replace=False)
+            pool = [v for v in (1.0, 2.0, 3.0, 8.0, 20.0) if v <= max(1.0, 0.9 * kmax)]
+            vals = rng.choice(pool, size=min(int(rng.integers(1, 4)), len(pool)), replace=False)
             lam = rng.choice(vals, size=n)
             A = _dy((Q * lam) @ Q.conj().T)
             A = (A + A.conj().T) / 2
@@ -280,6 +290,8 @@ def make_case(rng, solver, nmax=8, long_run=False, nmin=1):
             'mkind': str(rng.choice(['dense', 'csr', 'linop'])), 'restart': None, 'orthog': None, 'crit': None}
     if solver == 'gmres':
         case['orthog'] = str(rng.choice(['householder', 'mgs']))
+    if solver == 'gmres_mgs' and rng.random() < 0.3:
+        case['reorth'] = True
     if solver in GM and n >= 3 and rng.random() < 0.3:
         case['restart'] = int(rng.integers(1, n))
         case['K'] = int(rng.integers(2, 4))          # number of cycles
@@ -343,6 +355,8 @@ def call(case, s, maxiter, M='case', restart=None, x0='case', tol=None):
         kw['criteria'] = case['crit']
     if case.get('orthog'):
         kw['orthog'] = case['orthog']
+    if case.get('reorth'):
+        kw['reorth'] = True
     if restart is not None:
         kw['restart'] = restart
     log = []
@@ -389,6 +403,22 @@ def argmin_line(kind, s, cplx, x0, k):
 
 def iter_line(solver, s, cplx, x0, k):
     return f'c07_iter {solver} {"c" if cplx else "r"} {_mat(s.A, cplx)} {_mat(s.Md, cplx)} {_vec(s.b, cplx)} {_vec(x0, cplx)} {k}'
+
+
+def _fbits(v):
+    return ','.join(str(float_bits(x)) for x in np.asarray(v, dtype=float).ravel())
+
+
+def gmres_line(s, x0, k):
+    """the GMRES(MGS) model of Model/C07Gmres.lean, run in binary64 (bit patterns in, bit patterns out)"""
+    return f'c07_gmres_mgs {";".join(_fbits(r) for r in s.A)} {";".join(_fbits(r) for r in s.Md)} {_fbits(s.b)} {_fbits(x0)} {k}'
+
+
+def parse_bits(reply):
+    import struct
+    if reply in ('-', 'bad-size') or reply.startswith('bad'):
+        return None if reply != '-' else []
+    return [np.array([struct.unpack('<d', struct.pack('<Q', int(t)))[0] for t in tok.split(',')]) for tok in reply.split(';')]
 
 
 def _tovec(tok, cplx):
@@ -519,6 +549,9 @@ def run_kry_cases(ctx, cases):
             # the non-terminating CR with a non-commuting M is followed for 3 steps only
             it['iter'] = len(lines)
             lines.append(iter_line(solver, s, cplx, s.x0d, case['K'] if (solver != 'cr' or commutes(s)) else min(case['K'], 3)))
+        if not cplx and not case['restart'] and (solver == 'gmres_mgs' or case['orthog'] == 'mgs') and s.n >= 2:
+            it['gm'] = len(lines)
+            lines.append(gmres_line(s, s.x0d, case['K']))
         items.append(it)
     rep1 = ctx.lean(lines, chunks=2 if len(lines) > 2000 else 1) if lines else []
     # phase 2: the real code; `k` never exceeds the grade ("the k-dimensional Krylov space" has to exist)
@@ -643,6 +676,20 @@ def run_kry_cases(ctx, cases):
                                  f'recurrence model and implementation differ by {err:.3g} at iterate {j}')
                         break
                 ctx.feat('model-steps', min(len(mod), len(it['log'])))
+        # correspondence: GMRES(MGS) model (binary64) vs callback log, up to the grade of r0
+        if 'gm' in it and it.get('mode') == 'single' and it['grade'] > 0:
+            mod = parse_bits(rep1[it['gm']])
+            if mod is None:
+                ctx.corr('c07_gmres_mgs', pub, rep1[it['gm']][:200], 'n/a', 'driver rejected the request')
+            else:
+                scale = float(np.linalg.norm(am['xs'] - s.x0d))
+                for j, (xm, xi) in enumerate(zip(mod[:it['Keff']], it['log']), 1):
+                    err = float(np.linalg.norm(xm - xi)) if np.all(np.isfinite(xm)) else np.inf
+                    if err > TOL * scale + FLOOR * (float(np.linalg.norm(xi)) + float(np.linalg.norm(s.x0d))):
+                        ctx.corr(f'c07_gmres_mgs step {j}', pub, xm.tolist(), xi.tolist(),
+                                 f'GMRES(MGS) model and implementation differ by {err:.3g} at iterate {j}')
+                        break
+                ctx.feat('gmres-model-steps', min(len(mod), len(it['log'])))
 
 
 def run_line_cases(ctx, cases):
